@@ -956,7 +956,7 @@ func rewriteTimeoutMsg(msg *Message) (err error) {
 		err = errInvalidNumberOfArguments
 		return
 	}
-	timeoutSec, _err := strconv.ParseFloat(valStr, 64)
+	timeoutSec, _err := parseFloat(valStr)
 	if _err != nil || timeoutSec < 0 {
 		err = errInvalidArgument(valStr)
 		return
